@@ -1218,6 +1218,26 @@ class RawAlgorithmsMixIn:
             xbar_data += cls._dot(zbar_data, cls._transpose(y_data), out = xbar_data.copy())
             ybar_data += cls._outer(x_data, zbar_data, out = ybar_data.copy())
 
+        elif x_ndim >= 3 or y_ndim >= 3:
+            # numpy.dot of N-d operands:  z[i.., j.., m] = sum_k x[i.., k] y[j.., k, m]
+            #   xbar[i.., k]    += sum_{j.., m} zbar[i.., j.., m] y[j.., k, m]
+            #   ybar[j.., k, m] += sum_{i..}    x[i.., k] zbar[i.., j.., m]
+            D,P = x_data.shape[:2]
+            lead = list(range(x_ndim-1))
+            for d in range(D):
+                for p in range(P):
+                    for c in range(d+1):
+                        zb, x, y = zbar_data[c,p], x_data[d-c,p], y_data[d-c,p]
+                        if y_ndim == 1:
+                            xbar_data[d,p] += numpy.multiply.outer(zb, y)
+                            ybar_data[d,p] += numpy.tensordot(x, zb, axes=(lead, lead))
+                        else:
+                            ya = list(range(y_ndim-2)) + [y_ndim-1]
+                            za = list(range(x_ndim-1, x_ndim-1+y_ndim-1))
+                            xbar_data[d,p] += numpy.tensordot(zb, y, axes=(za, ya))
+                            tmp = numpy.tensordot(x, zb, axes=(lead, lead))
+                            ybar_data[d,p] += numpy.moveaxis(tmp, 0, -2)
+
         else:
             xbar_data += cls._dot(zbar_data, cls._transpose(y_data), out = xbar_data.copy())
             ybar_data += cls._dot(cls._transpose(x_data), zbar_data, out = ybar_data.copy())
